@@ -67,10 +67,15 @@ def check_accept(*types):
     return decorator
 
 
+def _reject_json_constant(constant):
+    # NaN, Infinity and -Infinity are not JSON and no field can hold them.
+    raise ValueError('%s is not a valid JSON value' % constant)
+
+
 def extract_json(body, schema):
     """Extract JSON from a body and validate with the provided schema."""
     try:
-        data = jsonutils.loads(body)
+        data = jsonutils.loads(body, parse_constant=_reject_json_constant)
     except ValueError as exc:
         raise webob.exc.HTTPBadRequest(
             'Malformed JSON: %(error)s' % {'error': exc},
